@@ -18,7 +18,8 @@ def run(ctx):
                dict(IDS="Ids2", KIND="KindDD", P=1, MODES="MRefuseAnswer")]
     else:
         mcs = [dict(IDS="IdsDef", KIND=k, P=p, MODES=m) for k in ("KindDDO", "KindDOO", "KindDDD") for p in (1, 2)
-               for m in ("MAnswer", "MStall", "MCloseAnswer", "MRefuseAnswer", "MRefuse")]
+               for m in ("MStall", "MCloseAnswer", "MRefuseAnswer")]
+        mcs += [dict(IDS="IdsDef", KIND="KindDDO", P=p, MODES=m) for p in (1, 2) for m in ("MAnswer", "MRefuse")]
     jobs = {"mc%d" % i: dict(area="client", module="PipelineClientMC", cfg="PipelineClientMC.cfg", consts=c,
                              workers=ctx.pick(1, 4), timeout=3000) for i, c in enumerate(mcs)}
     res = gpar.par(ctx, jobs) if ctx.quick else {n: ctx.tlc(**kw) for n, kw in jobs.items()}
